@@ -111,7 +111,12 @@ class Underlying(abc.ABC):
         :return: a function that will take the times, the path and the payoff underlying value and return the
                  underlying value from the relevant quantities
         """
-        if isinstance(self, payoff_underlying_type):
+        # only for underlyings without parameters: two underlyings of one parametrised class (the n-th spot, an average
+        # with its own discretisation, performances with their own reference spots) are not the same underlying
+        if (
+            isinstance(self, payoff_underlying_type)
+            and type(self).__init__ is object.__init__
+        ):
             return lambda times, path, jump_path, payoff_underlying: payoff_underlying
 
         return self.value
